@@ -1,1 +1,131 @@
-// harnesses for module body_reader (included under cfg(kani))
+// C01 / C02 / C05 / C19 on the three body framings, driven through the real BodyReader over the
+// scripted transport (BaseStream::Verif).
+
+mod verif_body {
+    use super::*;
+    use crate::verif::{ch, drive, Case, Ch, Fault, Script, Scripted, Seg};
+    use std::io::BufReader;
+
+    // NOTE: the chunked decoder is driven as ChunkedReader<BaseStream> (the exact instantiation stored in
+    // BodyReader::Chunked) and not through the BodyReader enum: with CBMC 6.11 the state of a
+    // ChunkedReader<BaseStream> nested inside a second enum payload is no longer constant-propagated
+    // (every loop bound becomes symbolic; a single read did not finish in 200 s).  The Length and
+    // Close variants go through the real BodyReader.
+    pub fn chunked_reader(t: Scripted, cap: usize) -> ChunkedReader<BaseStream> {
+        ChunkedReader::new(BufReader::with_capacity(cap, BaseStream::Verif(t)))
+    }
+    pub fn length_reader(t: Scripted, cap: usize, n: u64) -> BodyReader {
+        BodyReader::Length(BufReader::with_capacity(cap, BaseStream::Verif(t)).take(n))
+    }
+    pub fn close_reader(t: Scripted, cap: usize) -> BodyReader {
+        BodyReader::Close(BufReader::with_capacity(cap, BaseStream::Verif(t)))
+    }
+
+    #[derive(Clone, Copy, PartialEq)]
+    pub enum Framing {
+        Chunked,
+        Length,
+        Close,
+    }
+
+    // ------------------------------------------------------------------------------------- C01
+    /// well-formed body, complete on the wire (+ optional trailing garbage); read to the end with
+    /// caller buffers of `rd` bytes; `cap` = BufReader capacity.
+    pub fn c01_case(framing: Framing, case: &Case, seg: Seg, cap: usize, rd: usize) {
+        // Close framing has no garbage by definition (everything up to EOF is payload)
+        let mut script = case.transport(case.wire_len, seg, Fault::Eof);
+        let d = match framing {
+            Framing::Chunked => {
+                let mut r = chunked_reader(script.handle(), cap);
+                let d = drive(&mut r, case, rd, case.pay_len + 4, 2);
+                std::mem::forget(r);
+                d
+            }
+            Framing::Length => {
+                let mut r = length_reader(script.handle(), cap, case.pay_len as u64);
+                let d = drive(&mut r, case, rd, case.pay_len + 4, 2);
+                std::mem::forget(r);
+                d
+            }
+            Framing::Close => {
+                let mut r = close_reader(script.handle(), cap);
+                let d = drive(&mut r, case, rd, case.pay_len + 4, 2);
+                std::mem::forget(r);
+                d
+            }
+        };
+        assert!(!d.bad_byte, "C01: delivered byte differs from the framed payload");
+        assert!(!d.overrun, "C01: bytes delivered from beyond the end of the frame");
+        assert!(!d.err, "C01: well-formed body produced an error");
+        assert!(d.eof, "C01: end of body not reported");
+        assert!(d.delivered == case.pay_len, "C01: payload bytes lost");
+        assert!(!d.data_after_eof, "C01: data after end-of-body");
+        assert!(d.reads_after_terminal == 2, "C01: post-EOF reads not exercised");
+        kani::cover!(d.eof && d.delivered == case.pay_len, "must: complete body read");
+    }
+
+    macro_rules! c01_chunked {
+        ($name:ident, $shape:expr, $garbage:expr, $seg:expr, $cap:expr, $rd:expr) => {
+            c01_chunked!($name, $shape, $garbage, $seg, $cap, $rd, false);
+        };
+        ($name:ident, $shape:expr, $garbage:expr, $seg:expr, $cap:expr, $rd:expr, $upper:expr) => {
+            #[kani::proof]
+            #[kani::unwind(40)]
+            #[kani::stub(core::slice::memchr::memchr, crate::verif::memchr_naive)]
+            #[kani::stub(core::str::from_utf8, crate::verif::from_utf8_model)]
+            fn $name() {
+                let shape: &[Ch] = &$shape;
+                let case = Case::chunked(shape, $garbage, $upper);
+                c01_case(Framing::Chunked, &case, $seg, $cap, $rd);
+            }
+        };
+    }
+    macro_rules! c01_raw {
+        ($name:ident, $framing:expr, $n:expr, $garbage:expr, $seg:expr, $cap:expr, $rd:expr) => {
+            #[kani::proof]
+            #[kani::unwind(40)]
+            #[kani::stub(core::slice::memchr::memchr, crate::verif::memchr_naive)]
+            #[kani::stub(core::str::from_utf8, crate::verif::from_utf8_model)]
+            fn $name() {
+                let case = Case::raw($n, $garbage);
+                c01_case($framing, &case, $seg, $cap, $rd);
+            }
+        };
+    }
+
+    const X1: Ch = Ch { size: 3, zeros: 0, ext: 1, bare_lf: false };
+    const X2: Ch = Ch { size: 2, zeros: 0, ext: 2, bare_lf: false };
+    const Z2: Ch = Ch { size: 5, zeros: 2, ext: 0, bare_lf: false };
+    const LF: Ch = Ch { size: 2, zeros: 0, ext: 0, bare_lf: true };
+    const BL: Ch = Ch { size: 1, zeros: 1, ext: 3, bare_lf: false };
+
+    // quick core set
+    c01_chunked!(c01_q_chunked_empty_whole, [], 0, Seg::Whole, 8, 1);
+    c01_chunked!(c01_q_chunked_s3_whole_rd8, [ch(3)], 0, Seg::Whole, 64, 8);
+    c01_chunked!(c01_q_chunked_s4_s1_onebyte_rd2, [ch(4), ch(1)], 0, Seg::OneByte, 8, 2);
+    c01_chunked!(c01_q_chunked_s5_straddle_rd3, [ch(5)], 2, Seg::Whole, 8, 3);
+    c01_chunked!(c01_q_chunked_s9_straddle2_rd8, [ch(9)], 0, Seg::Max(3), 4, 8);
+    c01_chunked!(c01_q_chunked_s10_hexlower_rd1, [ch(10)], 1, Seg::Whole, 64, 1, false);
+    c01_chunked!(c01_q_chunked_s11_hexupper_rd3, [ch(11)], 0, Seg::Max(5), 64, 3, true);
+    c01_chunked!(c01_q_chunked_ext_zeros_rd2, [X1, Z2], 3, Seg::Max(2), 3, 2);
+    c01_chunked!(c01_q_chunked_ext2_lf_blank_rd8, [X2, LF, BL], 0, Seg::Whole, 64, 8, true);
+    c01_chunked!(c01_q_chunked_s17_rd8, [ch(17)], 0, Seg::Whole, 16, 8);
+    c01_raw!(c01_q_length_n0_g2, Framing::Length, 0, 2, Seg::Whole, 8, 1);
+    c01_raw!(c01_q_length_n5_g3_rd2, Framing::Length, 5, 3, Seg::Whole, 64, 2);
+    c01_raw!(c01_q_length_n6_onebyte_rd8, Framing::Length, 6, 1, Seg::OneByte, 2, 8);
+    c01_raw!(c01_q_close_n0, Framing::Close, 0, 0, Seg::Whole, 8, 3);
+    c01_raw!(c01_q_close_n6_split_rd3, Framing::Close, 6, 0, Seg::SplitAt(2), 4, 3);
+    c01_raw!(c01_q_close_n5_rd1, Framing::Close, 5, 0, Seg::Max(2), 1, 1);
+
+    #[kani::proof]
+    #[kani::unwind(40)]
+    #[kani::stub(core::slice::memchr::memchr, crate::verif::memchr_naive)]
+    #[kani::stub(core::str::from_utf8, crate::verif::from_utf8_model)]
+    fn c01_qtwin_chunked() {
+        let case = Case::chunked(&[ch(4), ch(1)], 0, false);
+        c01_case(Framing::Chunked, &case, Seg::OneByte, 8, 2);
+        assert!(false, "twin: must be reported as FAILURE");
+    }
+
+    include!("gen_c01_thorough.rs");
+}
